@@ -79,6 +79,7 @@ class C14(Check):
         kind = rng.choice(["flat", "deep", "sharded", "sharded",
                            "sharded_legacy"])
         scn = {"kind": kind, "url": rng.choice(URLS),
+               "two_scales": rng.random() < 0.5,
                "zero_range": rng.choice(["200", "416", "206"]),
                "gzip": rng.random() < 0.5,
                "with_info": rng.random() < 0.9}
@@ -126,25 +127,36 @@ class C14(Check):
         stored = {}
         with mounted(fs):
             if scn["kind"].startswith("sharded"):
-                sh = scn["shard"]
+                sh = dict(scn["shard"], two_scales=False)
                 info = shardeng.make_info(sh)
                 fs.put(DS + "/info", json.dumps(info).encode())
+                keys = [shardeng.KEY]
+                if scn.get("two_scales"):
+                    # a second scale with the same grid and sharding: the
+                    # same shard numbers / file names under another key
+                    import copy
+                    s2 = copy.deepcopy(info["scales"][0])
+                    s2["key"] = "s1"
+                    info["scales"].append(s2)
+                    keys.append("s1")
+                    fs.put(DS + "/info", json.dumps(info).encode())
                 acc = ShardedFileAccessor(DS, strategy="in memory")
-                for i in scn["order"]:
-                    x, y, z, nb, seed = scn["chunks"][i]
-                    buf = payload(seed, nb)
-                    acc.store_chunk(buf, shardeng.KEY,
-                                    shardeng.coords(sh, (x, y, z)))
-                    stored[(x, y, z)] = buf
+                for ki, key in enumerate(keys):
+                    for i in scn["order"]:
+                        x, y, z, nb, seed = scn["chunks"][i]
+                        buf = payload(seed + 7919 * ki, nb)
+                        acc.store_chunk(buf, key,
+                                        shardeng.coords(sh, (x, y, z)))
+                        stored[(key, (x, y, z))] = buf
                 acc.close()
                 if scn["kind"] == "sharded_legacy":
                     from sim.simhttp import to_legacy
-                    to_legacy(fs, DS, {shardeng.KEY: sh["bits"][0]})
+                    to_legacy(fs, DS, {k: sh["bits"][0] for k in keys})
                 grid = sh["grid"]
                 positions = {
-                    p: shardeng.coords(sh, p)
+                    (key, p): shardeng.coords(sh, p) for key in keys
                     for p in itertools.product(*[range(g) for g in grid])}
-                return info, shardeng.KEY, positions, stored
+                return info, positions, stored
             info = {"type": "image", "data_type": "uint8", "num_channels": 1,
                     "scales": [{"key": "k", "size": [12, 12, 8],
                                 "chunk_sizes": [[4, 4, 4]],
@@ -155,16 +167,27 @@ class C14(Check):
             if scn["with_info"]:
                 acc.store_file("info", json.dumps(info).encode(),
                                mime_type="application/json")
-            positions = {(x, y, z): (4 * x, 4 * x + 4, 4 * y, 4 * y + 4,
-                                     4 * z, 4 * z + 4)
-                         for x in range(3) for y in range(3)
-                         for z in range(2)}
-            for x, y, z, nb, seed in scn["chunks"]:
-                buf = payload(seed, nb)
-                acc.store_chunk(buf, "k", positions[(x, y, z)])
-                stored[(x, y, z)] = buf
-            return (info if scn["with_info"] else None), "k", positions, \
-                stored
+            keys = ["k"]
+            if scn.get("two_scales"):
+                import copy
+                s2 = copy.deepcopy(info["scales"][0])
+                s2["key"] = "k2"
+                info["scales"].append(s2)
+                keys.append("k2")
+                if scn["with_info"]:
+                    acc.store_file("info", json.dumps(info).encode(),
+                                   mime_type="application/json",
+                                   overwrite=True)
+            positions = {(key, (x, y, z)): (4 * x, 4 * x + 4, 4 * y,
+                                            4 * y + 4, 4 * z, 4 * z + 4)
+                         for key in keys for x in range(3)
+                         for y in range(3) for z in range(2)}
+            for ki, key in enumerate(keys):
+                for x, y, z, nb, seed in scn["chunks"]:
+                    buf = payload(seed + 7919 * ki, nb)
+                    acc.store_chunk(buf, key, positions[(key, (x, y, z))])
+                    stored[(key, (x, y, z))] = buf
+            return (info if scn["with_info"] else None), positions, stored
 
     def execute(self, trace):
         import json
@@ -179,7 +202,7 @@ class C14(Check):
         fs = SimFS(log=log)
         fs.dirs["/simfs/srv"] = True
         fs.dirs[DS] = True
-        info, key, positions, stored = self._build(scn, fs, log)
+        info, positions, stored = self._build(scn, fs, log)
         sharded = scn["kind"].startswith("sharded")
         if scn["kind"] == "deep":
             mode = "nginx"
@@ -231,11 +254,18 @@ class C14(Check):
                 others = [p for p in plist if p not in keep]
                 step = max(1, len(others) // 20)
                 plist = sorted(keep | set(others[::step]))
+            if scn.get("two_scales"):
+                # alternate between the scales (same shard numbers)
+                half = len(plist) // 2
+                a, b = plist[:half], plist[half:]
+                plist = [q for pair in zip(a, b) for q in pair] + (
+                    a[len(b):] + b[len(a):])
             faults = trace["faults"]
             frng = random.Random(faults["seed"]) if faults else None
             for p in plist:
                 if res.violations:
                     break
+                key = p[0]
                 co = positions[p]
                 s2, want = sut(local.fetch_chunk, key, co)
                 if faults is None:
